@@ -82,3 +82,34 @@ fn h_w_window_shrink() {
     let out = tcb.segments();
     assert!(out.iter().all(|s| s.text.len() == 0 || s.header.seq == 101), "new data emitted beyond the advertised window");
 }
+
+const M32: u64 = 1 << 32;
+fn cdist(a: u32, b: u32) -> u64 { (b as u64 + M32 - a as u64) % M32 }
+fn in_win(nxt: u32, wnd: u16, n: u32) -> bool { cdist(nxt.wrapping_sub(1), n) < wnd as u64 + 1 }
+
+//# id=is_seq_ok.rfc9293_table6 props=C17,C01 kind=complete pair=tcb.Tcb.is_seq_ok.rfc9293_table6,tcb.Tcb.is_in_rcv_window.window_with_left_slack
+// segment acceptability (RFC 9293 Table 6 with one octet of slack at the left edge) over the full scalar domain
+#[cfg_attr(kani, kani::proof)]
+#[cfg_attr(vx_replay, test)]
+fn h_is_seq_ok() {
+    let (id, _, _) = ids();
+    let nxt: u32 = any();
+    let wnd: u16 = any();
+    let tcb = Tcb::new(id, 1500, Initiation::Open, State::Established, SendSequenceSpace::default(),
+        ReceiveSequenceSpace { irs: 0, nxt, wnd });
+    let data_len: u32 = any();
+    let seq: u32 = any();
+    let (syn, fin): (bool, bool) = (any(), any());
+    vx_assume!(data_len <= 65535);
+    let n: u32 = any();
+    assert_eq!(tcb.is_in_rcv_window(n), in_win(nxt, wnd, n));
+    let seg_len = data_len + fin as u32 + syn as u32;
+    let want = if seg_len == 0 {
+        if wnd == 0 { seq == nxt.wrapping_sub(1) || seq == nxt } else { in_win(nxt, wnd, seq) }
+    } else if wnd == 0 {
+        false
+    } else {
+        in_win(nxt, wnd, seq) || in_win(nxt, wnd, seq.wrapping_add(seg_len - 1))
+    };
+    assert_eq!(tcb.is_seq_ok(data_len, seq, syn, fin), want);
+}
